@@ -296,13 +296,26 @@ def isolate_clauses(name, outdir, repo, contracts, fn_disp, report):
                 undec.append('clause %s:%d of %s alone: %s' % (cl['vspec'], cl['first'], fn_disp, u_))
     return fails, undec
 
-def run_unit(name, outdir, repo='/repo', canary=False, contracts=None, extra=None, tag=''):
-    """Build and verify one unit.  Returns a result dict."""
+def run_unit(name, outdir, repo='/repo', canary=False, contracts=None, extra=None, tag='', _exit_hints='auto'):
+    """Build and verify one unit.  Returns a result dict.
+    If obligations fail, the unit is verified once more with the proof hints that sit in front of a function's tail
+    expression copied in front of its early `return` statements as well (hints are assertions the verifier checks, so
+    a unit that verifies with the copies is verified); if that second text does not compile or still fails, the first
+    result stands."""
+    if not canary and _exit_hints == 'auto':
+        r1 = run_unit(name, outdir, repo=repo, canary=canary, contracts=contracts, extra=extra, tag=tag, _exit_hints='no')
+        if r1.get('status') == 'fail' and any(f.get('kind') in ('postcondition', 'assertion') for f in r1.get('failures', [])):
+            r2 = run_unit(name, outdir, repo=repo, canary=canary, contracts=contracts, extra=extra, tag=tag + '_xh', _exit_hints='yes')
+            if r2.get('status') == 'ok' and r2.get('exit_hint_copies'):
+                r2['note'] = 'verified with the tail hints copied to early returns (%d copies)' % r2['exit_hint_copies']
+                return r2
+        return r1
     res = {'unit': name, 'canary': canary}
     t0 = time.time()
     try:
         u = splice.Unit(name, repo=repo, contracts=contracts)
         u.canary = canary
+        u.copy_tail_hints = (_exit_hints == 'yes')
         text, linemap = u.build()
     except splice.LostAnchor as e:
         res.update(status='undecided', undecided=['lost anchor: %s' % e], failures=[], report=None, wall_s=time.time() - t0)
@@ -342,6 +355,7 @@ def run_unit(name, outdir, repo='/repo', canary=False, contracts=None, extra=Non
                 undecided += [x for x in u2 if 'Resource limit' not in x]
     j = vr.get('json') or {}
     r = j.get('verification-results', {})
+    res['exit_hint_copies'] = getattr(u, 'tail_hint_copies', 0)
     res.update(report=u.report, failures=failures, undecided=undecided,
                verified=r.get('verified'), errors=r.get('errors'), functions=function_times(vr),
                verus_wall_s=vr.get('wall_s'), wall_s=time.time() - t0, cmd=vr.get('cmd'), path=path,
